@@ -71,8 +71,9 @@ TUPLES = {"T2": ("pos", 2), "T12": ("p", 12)}
 
 class Gen:
     def __init__(self, rng, max_priors=8, allow_arith=True, allow_array=True, allow_extra=True,
-                 allow_tuple=True, allow_pow=True):
+                 allow_tuple=True, allow_pow=True, allow_fixed_obj=True):
         self.rng = rng
+        self.allow_fixed_obj = allow_fixed_obj
         self.prog = []
         self.k = 0
         self.pool = []
@@ -216,6 +217,10 @@ class Gen:
             # a prior or a constant held directly by the collection
             items.append(self.pick_prior() if rng.random() < 0.7 else None)
         refs = [({"h": i} if i is not None else _finite(rng)) for i in items]
+        if self.allow_fixed_obj and not big and rng.random() < 0.12:
+            # a component fixed to an instance of a user class (as after `model.lens = result.instance.lens`)
+            cls = rng.choice(["P1", "P2", "P3"])
+            refs.insert(rng.randint(0, len(refs)), {"obj": cls, "kw": {a: _finite(rng) for a in CLS_ARGS[cls]}})
         if form == "list":
             self.prog.append({"op": "coll_list", "h": h, "items": refs})
         elif form == "append":
@@ -282,6 +287,8 @@ def run_program(prog, upto=None):
                 if "path" in v:
                     o = _walk_to(o, v["path"])
                 return o
+            if "obj" in v:
+                return vlib.CLASSES[v["obj"]](**v["kw"])
             raise ValueError(v)
         return v
 
